@@ -1119,6 +1119,7 @@ func (s *Entry) fromCtx(ctx context.Context, kvps *Attrs) {
 
 func (s *Entry) print(ctx context.Context, lvl Level, timestamp time.Time, stackFrame uintptr, msg string, kvps Attrs) {
 	pc := poolPrintCtx.Get().(*PrintCtx)
+	verifEvent("pc.get", uintptr(unsafe.Pointer(pc)), 0)
 
 	// pc.set will truncate internal buffer and reset all states for
 	// this current session. So, don't worry about a reused buffer
@@ -1127,6 +1128,7 @@ func (s *Entry) print(ctx context.Context, lvl Level, timestamp time.Time, stack
 
 	s.printImpl(ctx, pc)
 
+	verifEvent("pc.put", uintptr(unsafe.Pointer(pc)), 0)
 	poolPrintCtx.Put(pc)
 	return
 }
@@ -1176,7 +1178,9 @@ func (s *Entry) printImpl(ctx context.Context, pc *PrintCtx) {
 	// ret = pc.String()
 	// s.printOut(pc.lvl, []byte(ret))
 	msg := pc.Bytes()
+	verifEvent("write.begin", uintptr(unsafe.Pointer(pc)), uintptr(len(msg)))
 	s.printOut(pc.lvl, msg)
+	verifEvent("write.end", uintptr(unsafe.Pointer(pc)), uintptr(len(msg)))
 	return
 }
 
@@ -1345,6 +1349,7 @@ func (s *Entry) logContext(ctx context.Context, lvl Level, stackFrame uintptr, m
 		atomic.StoreInt32(&fixedSize, int32(roughSize))
 	}
 	kvps = poolAttrs.Get().(Attrs)
+	verifEvent("attrs.get", uintptr(unsafe.Pointer(unsafe.SliceData(kvps))), uintptr(cap(kvps)))
 	// kvps = make(Attrs, 0, roughSize) // pre-allocate slice spaces roughly
 	// }
 
@@ -1354,6 +1359,7 @@ func (s *Entry) logContext(ctx context.Context, lvl Level, stackFrame uintptr, m
 	s.print(ctx, lvl, now, stackFrame, msg, kvps)
 
 	// if kvps != nil {
+	verifEvent("attrs.put", uintptr(unsafe.Pointer(unsafe.SliceData(kvps))), uintptr(cap(kvps)))
 	kvps = kvps[:0]     // keep array cap but set slice to empty
 	poolAttrs.Put(kvps) // and return it for next request
 	// }
